@@ -56,6 +56,14 @@ def lever(pat_pos):
     return min(L, max(off)) if max(off) > 1e-6 else L
 
 
+def lever_of(pp, a1, a2, o):
+    if o is None:
+        return None
+    ax = pp[a2] - pp[a1]
+    v = pp[o] - pp[a1]
+    return float(np.linalg.norm(v - ax * np.dot(v, ax) / np.dot(ax, ax)))
+
+
 def bound(atol, pat_pos, rep_pos):
     p = np.asarray(pat_pos, float)
     r = np.asarray(rep_pos, float).reshape(-1, 3)
@@ -159,6 +167,18 @@ def run_case(case, ctx):
     f = case.get("fraction", 1.0)
     events.SCHEDULE["sample"] = case.get("sample", "real")
     kw = {} if f >= 1.0 else {"replace_fraction": f}
+    if case["s"] % 4 == 0:
+        hs = patterns.valid_hint_sets(pat, rng, k=2)
+        h = hs[int(rng.integers(len(hs)))]
+        # only well-conditioned hints here (the ill-conditioned ones are C03's known finding): placement must then be as good
+        if h != (None, None, None) and all(G.anchored_residual(pat["positions"], np.asarray(pat["positions"]) + 0.0, h) < 1e-9 for _ in (0,)):
+            a1, a2, o = G.complete_hints(pat["positions"], h)
+            pp = np.asarray(pat["positions"], float)
+            L = np.linalg.norm(pp[a2] - pp[a1])
+            lev = lever_of(pp, a1, a2, o)
+            if L > 0.7 * G.diameter(pp) and (lev is None or lev > 0.8):
+                kw.update(axisp1_idx=h[0], axisp2_idx=h[1], opoint_idx=h[2])
+                st.count("replacements_with_hints")
     obs = replcase.observe_replace(S, P, R, case["s"], atol=atol, replace_all=case["replace_all"], **kw)
     st.count("replace_calls")
     if f < 1.0 and obs["selected"] is not None and len(obs["selected"]) >= 2:
